@@ -843,6 +843,17 @@ def run_opv(case):
                 return True, "GB value %r exceeds the optimal population value %r" % (val[tr], opv), "opv-broken", "gb-bound"
     if not numpy.array_equal(numpy.asarray(prob.haplomat), hm0, equal_nan=True):
         return True, "latentfn modified the block value array", "opv-broken", "aliasing"
+    # the value follows the block values the problem holds NOW: replace them through the public setter (individuals reversed,
+    # values negated) and compare with a problem constructed on the new block values (itself checked above for its own data)
+    if numpy.all(numpy.isfinite(hm0)):
+        hm2 = -hm0[:, ::-1].copy()
+        extra = {} if kind == "opv" else dict(nbestfndr=case["nbest"])
+        fresh = C(haplomat=hm2.copy(), nobj=t, **extra, **_decn(nind, k))
+        prob.haplomat = hm2
+        a, b = prob.latentfn(x), fresh.latentfn(x)
+        if not numpy.array_equal(a, b):
+            return True, "after `problem.haplomat = new block values` latentfn(%r) = %r, a problem constructed on the new values gives %r" % (
+                parents, a.tolist(), b.tolist()), "opv-broken", "stale-after-setter"
     return OK
 
 
